@@ -84,8 +84,8 @@ Definition cop_ok (s : store) (o : op) : Prop :=
   | OUpdateChecks pid id _ => exists q, In q s /\ sp_id q = pid /\ In id (map sc_id (pln_chks q))
   | OUpdateSequence pid id _ => exists q, In q s /\ sp_id q = pid /\ In id (map sq_id (pln_seqs q))
   | OUpdateAction pid id _ atts =>
-    exists q a, In q s /\ sp_id q = pid /\ In a (pln_actions q) /\ sa_id a = id
-                /\ Forall (fun x => att_ok (sa_plugin a) x = true) atts
+    (exists q a, In q s /\ sp_id q = pid /\ In a (pln_actions q) /\ sa_id a = id)
+    /\ (forall q a, In q s -> In a (pln_actions q) -> sa_id a = id -> Forall (fun x => att_ok (sa_plugin a) x = true) atts)
   | ODelete _ => True
   end.
 End CDom.
